@@ -153,6 +153,10 @@ func (p *smtPrinter) raw(t *Term) string {
 			return name
 		}
 		return "(" + name + args() + ")"
+	case "vcell":
+		name := "vcell!" + sanitize(t.Aux.Name)
+		p.declExtra(name, fmt.Sprintf("(declare-fun %s (%s) Int)", sym(name), symSort(t.Aux)))
+		return "(" + sym(name) + args() + ")"
 	case "faddr":
 		name := fmt.Sprintf("faddr!%d", t.Idx)
 		p.declExtra(name, fmt.Sprintf("(declare-fun %s (Int) Int)", name))
